@@ -243,9 +243,10 @@ pub fn gen_case(p: &Program, tape: &[u16], late_morphisms: bool) -> Case {
         let k = t.pick(s.globals.len());
         global_facts.push((k, (0..3).map(|_| t.pick(1 << 16) as u16).collect()));
     }
-    let schedule = (0..64).map(|_| t.pick(1 << 16) as u16).collect();
+    // decided before the schedule is drawn: the schedule takes 64 tape entries and short tapes end there
     let n_closes = t.pick(3);
     let early_closes = if !late_morphisms && t.chance(1, 3) { 1 + t.pick(2) } else { 0 };
+    let schedule = (0..64).map(|_| t.pick(1 << 16) as u16).collect();
     Case { n_models, n_elems, mors, member_facts, global_facts, schedule, n_closes, late_morphisms, early_closes }
 }
 
@@ -493,7 +494,7 @@ pub fn run_c17(tier: &str, seed: u64) -> campaign::CampaignResult {
                     return pp;
                 }
             };
-            let ctapes = pt::draw_tapes(seed.wrapping_add(0xC17).wrapping_add(pi as u64 * 104729), nc, 120);
+            let ctapes = pt::draw_tapes(seed.wrapping_add(0xC17).wrapping_add(pi as u64 * 104729), nc, 240);
             for ct in &ctapes {
                 let c = gen_case(p, ct, late_allowed);
                 let o = run_case(p, &rules, &b.exe, &c);
